@@ -542,7 +542,13 @@ def check_separators(ctx, F, rule="R-TABLE"):
         if ok:
             for w in wo:
                 same = [n for n in ns if wb.oname(n.args[0], 3) == wb.oname(w.args[1], 3) and wb.can_reach(n.bb, w.bb)]
-                ok = ok and bool(same)
+                # ... or the value cannot follow another value without the question having been asked: every way from a
+                # write_object to this one passes need_separator(this value) (the first element after `[` needs none)
+                after = [n.bb for n in same]
+                fenced = all(not wb.can_reach(w2.bb, w.bb, avoid=after) for w2 in wo) if wo else False
+                ok = ok and (bool(same) or fenced)
+                if not same and not fenced:
+                    ok = False
             for s in sp:
                 # the space is written only on the true edge of need_separator
                 okk = False
